@@ -139,7 +139,7 @@ Theorem C18_irregular_loop_refuted :
 Proof. exact sun_irregular_loop_refuted. Qed.
 Print Assumptions C18_irregular_loop_refuted.
 
-(* FURTHER FINDING F15 (reported; the elevation trigger only: astral.time_at_elevation answers for UTC date d with
+(* FURTHER FINDING F16 (reported; the elevation trigger only: astral.time_at_elevation answers for UTC date d with
    an instant of date d+1 at western longitudes): an event still ahead on the reference instant's own UTC day
    is passed over, and with a filter every other date is never asked for *)
 Theorem C18_shifted_skips_pending :
@@ -328,7 +328,7 @@ Theorem C18_generated_irregular_loop_refuted :
 Proof. exact gen_sun_irregular_loop_refuted. Qed.
 Print Assumptions C18_generated_irregular_loop_refuted.
 
-(* FINDING F15 / F16 on the generated code *)
+(* FINDING F16 on the generated code *)
 Theorem C18_generated_following_date_refuted :
   exists (E : penv) (W : sunworld) (n : nat) (key : nat) (f : filt) (dt v d e : Z),
     world_ok W /\ cache_coherent E pstate0 /\
